@@ -268,6 +268,8 @@ def op_update(st, o):
         return "skipped"
     if spec["t"] == "array" and spec.get("squeeze") and nvdim != 1:
         return "skipped"
+    if spec["t"] == "const" and nvdim == 1 and np.shape(dec(spec["v"])) == tuple(mm.n):
+        return "skipped"  # [v] on a one-cell 1-d mesh is read as a per-cell array: ambiguous, no C02 clause decides
     fns = []
     val = lib_spec(st, spec, mm, nvdim, dtype, fns)
     want = eval_spec(st, spec, mm, nvdim, dtype)
@@ -866,7 +868,11 @@ def op_commute(st, o):
     r2 = expect_ok(sut(lambda: libf(hb.obj, ha.obj)), f"b {o['f']} a")
     st.stats.oracle("value")
     bad = []
-    if r1.nvdim != r2.nvdim or not arrays_equal(np.asarray(r1.array), np.asarray(r2.array)):
+    a1, a2 = np.asarray(r1.array), np.asarray(r2.array)
+    finite = a1.shape == a2.shape and bool(np.all(np.isfinite(a1)) and np.all(np.isfinite(a2)))
+    # numpy's own complex arithmetic is not symmetric once inf/nan are involved
+    # (and complex a*b vs b*a differ in the last bit: compared to 1e-12 relative)
+    if r1.nvdim != r2.nvdim or a1.shape != a2.shape or (finite and not np.allclose(a1, a2, rtol=1e-12, atol=0)):
         bad.append("values differ")
     if (r1.vdims or None) != (r2.vdims or None):
         bad.append(f"labels {r1.vdims} vs {r2.vdims}")
